@@ -153,7 +153,7 @@ type vshOp struct {
 	// Op:
 	//  addk     AddTransceiverFromKind(Kind, Dir)
 	//  addtrack AddTrack(new track of Kind); N>1: the track carries a RID, N-1 x Sender.AddEncoding
-	//  addtft   AddTransceiverFromTrack(new track of Kind, Dir); N>1: simulcast, N-1 x Sender.AddEncoding
+	//  addtft   AddTransceiverFromTrack(new track of Kind, Dir); N>1: simulcast, N-1 x Sender.AddEncoding; N=-1: init with SendEncodings[0].SSRC preset
 	//  rmtrack  RemoveTrack(sender of transceiver Idx)
 	//  replace  Sender(Idx).ReplaceTrack(nil when N==0, another track when N==1)
 	//  stop     transceiver Idx .Stop()
@@ -726,7 +726,12 @@ func (rp *vshReplayer) apply(op vshOp) string { //nolint:gocognit,cyclop
 		if err != nil {
 			vkit.Fatalf(rp.tb, "track: %v", err)
 		}
-		t, err := pc.AddTransceiverFromTrack(tr, RTPTransceiverInit{Direction: vshDir(op.Dir)})
+		tinit := RTPTransceiverInit{Direction: vshDir(op.Dir)}
+		if op.N < 0 {
+			// N = -1: the application fixes the primary SSRC through the init (and nothing else)
+			tinit.SendEncodings = []RTPEncodingParameters{{RTPCodingParameters: RTPCodingParameters{SSRC: SSRC(424200 + len(trs))}}} //nolint:gosec
+		}
+		t, err := pc.AddTransceiverFromTrack(tr, tinit)
 		if err != nil {
 			return done(err)
 		}
